@@ -5,6 +5,6 @@ p=$(realpath $1); shift
 d=$(mktemp -d /tmp/mut/tp_XXXXXX); cp -r /repo/strax $d/strax; find $d -name __pycache__ -prune -exec rm -rf {} +
 (cd $d && patch -p1 -s < $p) || { echo "PATCH FAILED"; rm -rf $d; exit 2; }
 for chk in "$@"; do
-  cd /verif && DST_STRAX_ROOT=$d timeout 1200 ./check $chk --budget-s ${BUDGET:-80} 2>&1 | grep -E "^VIOLATION|^violation:|HARNESS|\[dst\] C..:" | cut -c1-260 | head -${LINES_MAX:-4}
+  cd /verif && DST_STRAX_ROOT=$d DST_OUT_DIR=$d/out timeout 1200 ./check $chk --budget-s ${BUDGET:-80} 2>&1 | grep -E "^VIOLATION|^violation:|HARNESS|\[dst\] C..:" | cut -c1-260 | head -${LINES_MAX:-4}
 done
 rm -rf $d
